@@ -3,7 +3,15 @@
 package consul
 
 import (
+	"fmt"
+	"time"
+
 	"github.com/hashicorp/go-hclog"
+	"github.com/hashicorp/raft"
+
+	"github.com/hashicorp/consul/acl"
+	"github.com/hashicorp/consul/agent/consul/state"
+	"github.com/hashicorp/consul/agent/rpc/middleware"
 
 	"github.com/hashicorp/consul/acl/resolver"
 	"github.com/hashicorp/consul/agent/consul/fsm"
@@ -67,3 +75,112 @@ func (e *VerifACLEnv) WaitIdentityFetch(token string) {
 
 // VerifIsNotFound / VerifIsRemote classify resolution errors for the harness.
 func VerifIsRemoteError(err error) bool { return IsACLRemoteError(err) }
+
+// ResolveTokenAndDefaultMeta is the entry point RPC endpoints and agents use.
+func (e *VerifACLEnv) ResolveTokenAndDefaultMeta(secret string) (resolver.Result, error) {
+	var ctx acl.AuthorizerContext
+	return e.srv.ACLResolver.ResolveTokenAndDefaultMeta(secret, nil, &ctx)
+}
+
+// ResolvePolicies / ResolveRoles run the cores of ACL.PolicyResolve / ACL.RoleResolve and return the
+// identity they resolved.
+func (e *VerifACLEnv) ResolvePolicies(secret string) (structs.ACLIdentity, error) {
+	id, _, err := e.srv.ACLResolver.resolveTokenToIdentityAndPolicies(secret)
+	if err != nil {
+		return nil, err
+	}
+	return id, nil
+}
+func (e *VerifACLEnv) ResolveRoles(secret string) (structs.ACLIdentity, error) {
+	id, _, err := e.srv.ACLResolver.resolveTokenToIdentityAndRoles(secret)
+	if err != nil {
+		return nil, err
+	}
+	return id, nil
+}
+
+// ---- a server whose Raft is real (single voter, in-memory transport and stores): the ACL RPC
+// endpoints and the token reaper run unmodified on it.
+
+func VerifNewACLRaftEnv(f *fsm.FSM, settings ACLResolverSettings) (*VerifACLEnv, error) {
+	env, err := VerifNewACLEnv(f, nil, settings)
+	if err != nil {
+		return nil, err
+	}
+	s := env.srv
+	s.config.ACLsEnabled = true
+	s.config.MaxQueryTime = time.Second
+	s.config.DefaultQueryTime = time.Second
+	s.config.RPCHoldTimeout = time.Second
+	s.logger = hclog.NewInterceptLogger(&hclog.LoggerOptions{Level: hclog.Off})
+	s.shutdownCh = make(chan struct{})
+	s.rpcRecorder = middleware.NewRequestRecorder(hclog.NewNullLogger(), s.IsLeader, settings.Datacenter)
+
+	conf := raft.DefaultConfig()
+	conf.LocalID = "n1"
+	conf.HeartbeatTimeout = 50 * time.Millisecond
+	conf.ElectionTimeout = 50 * time.Millisecond
+	conf.LeaderLeaseTimeout = 50 * time.Millisecond
+	conf.CommitTimeout = 2 * time.Millisecond
+	conf.Logger = hclog.NewNullLogger()
+	store := raft.NewInmemStore()
+	snaps := raft.NewInmemSnapshotStore()
+	addr, trans := raft.NewInmemTransport("")
+	if err := raft.BootstrapCluster(conf, store, store, snaps, trans,
+		raft.Configuration{Servers: []raft.Server{{ID: conf.LocalID, Address: addr}}}); err != nil {
+		return nil, err
+	}
+	r, err := raft.NewRaft(conf, f, store, store, snaps, trans)
+	if err != nil {
+		return nil, err
+	}
+	s.raft = r
+	for i := 0; i < 2000 && r.State() != raft.Leader; i++ {
+		time.Sleep(2 * time.Millisecond)
+	}
+	if r.State() != raft.Leader {
+		return nil, fmt.Errorf("in-memory raft did not elect itself")
+	}
+	return env, nil
+}
+
+func (e *VerifACLEnv) Shutdown() {
+	if e.srv.raft != nil {
+		e.srv.raft.Shutdown().Error()
+	}
+}
+
+func (e *VerifACLEnv) State() *state.Store { return e.srv.fsm.State() }
+
+// RaftApply sends a command through Raft like the RPC write endpoints do.
+func (e *VerifACLEnv) RaftApply(t structs.MessageType, msg interface{}) error {
+	_, err := e.srv.raftApplyMsgpack(t, msg)
+	return err
+}
+
+// TokenRead is ACL.TokenRead by secret ID.
+func (e *VerifACLEnv) TokenRead(secret string) (*structs.ACLToken, error) {
+	ep := &ACL{srv: e.srv, logger: hclog.NewNullLogger()}
+	args := &structs.ACLTokenGetRequest{TokenID: secret, TokenIDType: structs.ACLTokenSecret, Datacenter: e.srv.config.Datacenter,
+		QueryOptions: structs.QueryOptions{Token: secret}}
+	var reply structs.ACLTokenResponse
+	if err := ep.TokenRead(args, &reply); err != nil {
+		return nil, err
+	}
+	return reply.Token, nil
+}
+
+// TokenList is ACL.TokenList (global and local) as seen with the requester's token.
+func (e *VerifACLEnv) TokenList(requester string) ([]*structs.ACLTokenListStub, error) {
+	ep := &ACL{srv: e.srv, logger: hclog.NewNullLogger()}
+	args := &structs.ACLTokenListRequest{IncludeLocal: true, IncludeGlobal: true, Datacenter: e.srv.config.Datacenter,
+		QueryOptions: structs.QueryOptions{Token: requester}}
+	var reply structs.ACLTokenListResponse
+	if err := ep.TokenList(args, &reply); err != nil {
+		return nil, err
+	}
+	return reply.Tokens, nil
+}
+
+// Reap is one run of the expired-token reaper for global tokens.
+func (e *VerifACLEnv) Reap() (int, error) { return e.srv.reapExpiredGlobalACLTokens() }
